@@ -46,6 +46,15 @@ def dedup : List Name → List Name
   | [] => []
   | x :: xs => if xs.contains x then dedup xs else x :: dedup xs
 
+/-- first occurrences, in order: the keys of a python dict built from a list of (key, value) pairs -/
+def dedupFirst : List Name → List Name
+  | [] => []
+  | x :: xs => x :: (dedupFirst xs).filter (fun y => y != x)
+
+/-- labels of `methods.assign(df, k1, v1, k2, v2, …)` (`df[k] = v` for the items of `dict(partition(2, pairs))`): the
+    frame's labels, then the new keys in the order of their FIRST occurrence -/
+def assignLabels (frame keys : List Name) : List Name := frame ++ (dedupFirst keys).filter (fun k => !frame.contains k)
+
 /-- `set(a) == set(b)` -/
 def setEq (a b : List Name) : Bool := a.all (b.contains ·) && b.all (a.contains ·)
 
@@ -413,6 +422,13 @@ def concatChild (axis1 : Bool) (columns f : List Name) : Option Sel :=
   let cf := concatKeepCols axis1 columns f
   if sortKeep cf = sortKeep f then none else some (.many cf)
 
+/-- the inputs `Concat._meta` looks at when it declares the labels: inputs without columns are left out
+    ("ignore DataFrame without columns to avoid dtype upcasting") -/
+def declaredFrames (fs : List (List Name)) : List (List Name) := fs.filter (fun f => !f.isEmpty)
+
+/-- `Concat.columns` -/
+def concatLabels (axis1 inner : Bool) (fs : List (List Name)) : List Name := concatCols axis1 inner (declaredFrames fs)
+
 /-- `Concat._simplify_up` (2-dim inputs) -/
 def concat (axis1 inner : Bool) (frames : List (List Name)) (p : Parent) (deps : List Dep) : Option Rw :=
   let columns := (detProj p deps []).toList
@@ -420,7 +436,8 @@ def concat (axis1 inner : Bool) (frames : List (List Name)) (p : Parent) (deps :
   else
     let kept := frames.filter (fun f => !concatDropped axis1 columns f)
     let newFrames := kept.map (concatKeepCols axis1 columns)
-    let keep := !(decide (concatCols axis1 inner newFrames = p.operand.toList) && !p.ndim1)
+    -- `result.columns == _convert_to_list(parent.operand("columns"))`: the labels the new Concat declares
+    let keep := !(decide (concatLabels axis1 inner newFrames = p.operand.toList) && !p.ndim1)
     some { childs := frames.map (concatChild axis1 columns), keep := keep,
            dropped := frames.map (concatDropped axis1 columns) }
 
@@ -469,7 +486,7 @@ structure RelabelOp (γ : Type) where
     not read the pruned input), every other column is passed through -/
 structure AssignOp (γ : Type) where
   op : List (Name × γ) → Frame γ → Frame γ
-  op_cols : ∀ kv F, (op kv F).cols = F.cols ++ (dedup (kv.map (·.1))).filter (fun k => !F.cols.contains k)
+  op_cols : ∀ kv F, (op kv F).cols = assignLabels F.cols (kv.map (·.1))
   op_key : ∀ kv F k, (kv.map (·.1)).contains k = true →
     (op kv F).val k = (kv.reverse.find? (fun e => e.1 == k)).map (·.2)
   op_other : ∀ kv F c, (kv.map (·.1)).contains c = false → (op kv F).val c = F.val c
@@ -484,7 +501,9 @@ structure BinOp (γ : Type) where
                                           (if B.cols.contains c then B.val c else none)
 
 /-- a join: the matching of rows is decided by the key columns of both sides; every output label carries one
-    input column of one side, re-indexed by the matching -/
+    input column of one side, re-indexed by the matching.  The laws speak about joins whose result labels are
+    duplicate-free (pandas refuses the others: "Passing 'suffixes' which cause duplicate columns is not allowed");
+    without that restriction two input columns with the same result label would have to carry the same data. -/
 structure MergeOp (γ : Type) where
   m : MergeP
   op : Frame γ → Frame γ → Frame γ
@@ -493,8 +512,9 @@ structure MergeOp (γ : Type) where
   T_keys : ∀ l l' r r' : Name → Option γ, (∀ k, m.leftOn.contains k = true → l k = l' k) →
     (∀ k, m.rightOn.contains k = true → r k = r' k) → TL l r = TL l' r' ∧ TR l r = TR l' r'
   op_cols : ∀ A B, (op A B).cols = mergeLabels m A.cols B.cols
-  op_left : ∀ A B c, A.cols.contains c = true → (op A B).val (labelL m B.cols c) = TL A.val B.val (A.val c)
-  op_right : ∀ A B c, B.cols.contains c = true → commonKey m c = false →
+  op_left : ∀ A B c, (mergeLabels m A.cols B.cols).Nodup → A.cols.contains c = true →
+    (op A B).val (labelL m B.cols c) = TL A.val B.val (A.val c)
+  op_right : ∀ A B c, (mergeLabels m A.cols B.cols).Nodup → B.cols.contains c = true → commonKey m c = false →
     (op A B).val (labelR m A.cols c) = TR A.val B.val (B.val c)
 
 /-- row-wise concatenation: output column c stacks the blocks of every input (an input without the column
